@@ -168,6 +168,14 @@ def judge_dec(pid, r, opl, gol, lel, metal, findings, breaks, cov, rec, seed):
             continue
         if go != le:
             sa, sb = go.split(" | "), le.split(" | ")
+            # a stream that ends inside a frame whose arrived part go-codec already rejects (e.g. a map repeating a key
+            # with values of different kinds, which the model's value decoder accepts): `dec` vs `ueof` at the same
+            # position — both fatal, same bytes consumed; counted, not compared further
+            if len(sa) == len(sb) and sa[:-1] == sb[:-1] and sa[-1].split(" @") [-1:] == sb[-1].split(" @")[-1:] and \
+                    sa[-1].startswith("dec @") and sb[-1].startswith("ueof @"):
+                rec["dec_vs_ueof_on_truncated_frame"] = rec.get("dec_vs_ueof_on_truncated_frame", 0) + 1
+                uns += 1
+                continue
             k = 0
             while k < min(len(sa), len(sb)) and sa[k] == sb[k]:
                 k += 1
